@@ -453,6 +453,15 @@ pub fn import_sequences() -> Vec<Json> {
         "f := (k: float) -> any { lib := import \"@DIR@/lib.sl\"; c := mut lib.value; c += 1.5; return (*c, lib.twice); }; f(2.5)",
         "k := [1]; lib := import \"@DIR@/lib.sl\"; (lib.value + [2], std.len(lib.pair.0))",
         "lib := import \"@DIR@/lib.sl\"; lib",
+        // importers that only look at what they imported (accepted whatever type the checker believes in)
+        "k := \"s\"; lib := import \"@DIR@/lib.sl\"; c := mut lib.value; r := *c; (r, lib.pair, [lib.value], lib.twice)",
+        "k := 2.5; lib := import \"@DIR@/lib.sl\"; c := mut lib.value; d := [lib.value, lib.pair.0]; (*c, d, lib)",
+        "k := [1, 2]; lib := import \"@DIR@/lib.sl\"; c := mut lib.value; (*c, lib.pair.1, lib.twice)",
+        "k := mut 7; lib := import \"@DIR@/lib.sl\"; c := mut lib.value; (*c, lib.pair.0)",
+        "f := (k: string) -> any { lib := import \"@DIR@/lib.sl\"; c := mut lib.value; return (*c, lib.pair, [lib.value]); }; g := (k: int) -> any { lib := import \"@DIR@/lib.sl\"; c := mut lib.value; return (*c, lib.pair, [lib.value]); }; (g(1), f(\"s\"), g(2))",
+        "counter := mut \"s\"; lib := import \"@DIR@/cells.sl\"; c := mut lib.seen; (*c, lib.bump(), [lib.seen])",
+        "counter := mut 2.5; lib := import \"@DIR@/cells.sl\"; c := mut lib.seen; (*c, lib.bump(), [lib.seen])",
+        "k := \"s\"; lib := import \"@DIR@/outer.sl\"; c := mut lib.v; (*c, lib.inner.pair)",
         "k := 2; a := import \"@DIR@/lib.sl\"; f := (k: string) -> any { b := import \"@DIR@/lib.sl\"; return b.value + \"x\"; }; (a.value + 1, f(\"s\"))",
         "counter := mut 5; lib := import \"@DIR@/cells.sl\"; (lib.seen + 1, lib.bump())",
         "counter := mut \"s\"; lib := import \"@DIR@/cells.sl\"; (lib.seen + \"t\", lib.bump())",
